@@ -124,20 +124,53 @@ def rows_via(gb):
     raise Shape("row loop iterates %s" % it)
 
 
+def _key_elements(x):
+    """The element expressions of the tuple a group is identified by, and the comprehension variable."""
+    if isinstance(x, ast.Tuple):
+        return list(x.elts), None
+    if _is_call(x, "tuple", 1):
+        a = x.args[0]
+        if isinstance(a, (ast.GeneratorExp, ast.ListComp)) and len(a.generators) == 1 and not a.generators[0].ifs \
+                and not a.generators[0].is_async and isinstance(a.generators[0].target, ast.Name):
+            return [a.elt], a.generators[0].target.id
+        if isinstance(a, (ast.List, ast.Tuple)):
+            return list(a.elts), None
+    raise Shape("group_key = %s" % _u(x))
+
+
+def _key_element_kind(e, record, var):
+    """`record[col]` -> tuple; `(type(record[col]), record[col])` (either order, or `.__class__`) -> typedTuple."""
+    def is_cell(y):
+        return isinstance(y, ast.Subscript) and _is_name(y.value, record) and (var is None or _is_name(y.slice, var))
+
+    if is_cell(e):
+        return "tuple"
+    if isinstance(e, ast.Tuple) and len(e.elts) == 2:
+        for t, v in (e.elts, e.elts[::-1]):
+            if not is_cell(v):
+                continue
+            if _is_call(t, "type", 1) and is_cell(t.args[0]) and _u(t.args[0]) == _u(v):
+                return "typedTuple"
+            if isinstance(t, ast.Attribute) and t.attr == "__class__" and is_cell(t.value) and _u(t.value) == _u(v):
+                return "typedTuple"
+    raise Shape("a key value enters the identity of its group as %s" % _u(e))
+
+
 def group_key(gb):
     loop = _row_loop(gb.func("_map", "GroupBy"))
     found = [n for n in ast.walk(loop) if isinstance(n, ast.Assign) and len(n.targets) == 1 and _is_name(n.targets[0], "group_key")]
     if len(found) != 1:
         raise Shape("%d assignments to group_key" % len(found))
+    if not isinstance(loop.target, ast.Name):
+        raise Shape("row loop target")
     v = found[0].value
-
-    def is_tuple(x):
-        return _is_call(x, "tuple", 1) or isinstance(x, ast.Tuple)
-
-    if is_tuple(v):
-        return "tuple"
-    if _is_call(v, "hash", 1) and is_tuple(v.args[0]):
-        return "hashTuple"
+    hashed = _is_call(v, "hash", 1)
+    elts, var = _key_elements(v.args[0] if hashed else v)
+    kinds = {_key_element_kind(e, loop.target.id, var) for e in elts}
+    if kinds <= {"tuple"}:
+        return "hashTuple" if hashed else "tuple"
+    if kinds == {"typedTuple"} and not hashed:
+        return "typedTuple"
     raise Shape("group_key = %s" % _u(v))
 
 
@@ -204,6 +237,57 @@ def map_value_and_guards(gb):
     if _u(expr) == "record[column]":
         return ["cell", guards]
     raise Shape("yielded value %s" % _u(expr))
+
+
+def collect_index(gb):
+    """How `_map` finds the position of a requested column: the comprehension assigned to
+    `collect_column_indicies`."""
+    fn = gb.func("_map", "GroupBy")
+    defs = [n for n in ast.walk(fn) if isinstance(n, ast.Assign) and len(n.targets) == 1
+            and _is_name(n.targets[0], "collect_column_indicies")]
+    if len(defs) != 1:
+        raise Shape("%d assignments to collect_column_indicies" % len(defs))
+    comp = defs[0].value
+    if not (isinstance(comp, ast.ListComp) and len(comp.generators) == 1 and not comp.generators[0].ifs
+            and isinstance(comp.generators[0].target, ast.Name) and _u(comp.generators[0].iter) == "collect_columns"):
+        raise Shape("collect_column_indicies = %s" % _u(comp)[:60])
+    t = comp.generators[0].target.id
+    e = comp.elt
+
+    def minus_one(x):
+        return _u(x) == "-1"
+
+    if isinstance(e, ast.IfExp):
+        test, a, b = _u(e.test), e.body, e.orelse
+        if test == "%s not in source_columns" % t:
+            test, a, b = "%s in source_columns" % t, b, a
+        if test == "%s in source_columns" % t and _u(a) == "source_columns.index(%s)" % t and minus_one(b):
+            return "indexIfPresent"
+        raise Shape("position of a column: %s" % _u(e)[:60])
+
+    def first_positions(name):
+        """`name = {}` followed by `for p, n in enumerate(source_columns): name.setdefault(n, p)`"""
+        inits = [n for n in ast.walk(fn) if isinstance(n, (ast.Assign, ast.AnnAssign))
+                 and any(_is_name(x, name) for x in (n.targets if isinstance(n, ast.Assign) else [n.target]))]
+        if len(inits) != 1 or inits[0].value is None or _u(inits[0].value) not in ("{}", "dict()"):
+            return False
+        uses = [n for n in ast.walk(fn) if isinstance(n, ast.Name) and n.id == name]
+        loops = [n for n in ast.walk(fn) if isinstance(n, ast.For) and _u(n.iter) == "enumerate(source_columns)"
+                 and isinstance(n.target, ast.Tuple) and len(n.target.elts) == 2 and all(isinstance(x, ast.Name) for x in n.target.elts)
+                 and len(n.body) == 1 and not n.orelse and isinstance(n.body[0], ast.Expr)
+                 and _u(n.body[0].value) == "%s.setdefault(%s, %s)" % (name, n.target.elts[1].id, n.target.elts[0].id)]
+        return len(loops) == 1 and len(uses) == 3  # its definition, the setdefault, the lookup
+
+    if _is_call(e, e.func.value.id + ".get" if isinstance(e, ast.Call) and isinstance(e.func, ast.Attribute)
+                and isinstance(e.func.value, ast.Name) else "\0") and len(e.args) == 2 and not e.keywords \
+            and _is_name(e.args[0], t) and minus_one(e.args[1]) and first_positions(e.func.value.id):
+        return "getDefault"
+    if isinstance(e, ast.BoolOp) and isinstance(e.op, ast.Or) and len(e.values) == 2 and minus_one(e.values[1]):
+        g = e.values[0]
+        if isinstance(g, ast.Call) and isinstance(g.func, ast.Attribute) and g.func.attr == "get" and isinstance(g.func.value, ast.Name) \
+                and len(g.args) == 1 and not g.keywords and _is_name(g.args[0], t) and first_positions(g.func.value.id):
+            return "getOrMinusOne"
+    raise Shape("position of a column: %s" % _u(e)[:60])
 
 
 # ----------------------------------------------------------------------------- aggregate
@@ -541,6 +625,7 @@ PINNED = {
     "group_key": "tuple",
     "map_registers": True,
     "map_value": ["starIfMissing", []],
+    "collect_index": "indexIfPresent",
     "rows_via": "frame",
     "collect_columns": "dedup",
     "collect_body": [[[], "touch"], [["notNone"], "append"]],
@@ -588,6 +673,7 @@ def generate(o):
     reg = o.item("group_by._map.registers", lambda: map_registers(gb), P["map_registers"])
     val, yg = o.item("group_by._map.yield", lambda: map_value_and_guards(gb), P["map_value"])
     via = o.item("group_by._map.rows_via", lambda: rows_via(gb), P["rows_via"])
+    cix = o.item("group_by._map.collect_index", lambda: collect_index(gb), P["collect_index"])
     col = o.item("group_by.aggregate.collect_columns", lambda: collect_columns(gb), P["collect_columns"])
     body = o.item("group_by.aggregate.collect_body", lambda: collect_body(gb), P["collect_body"])
     aggs = o.item("group_by.aggregators", lambda: aggregators(gb), P["aggregators"])
@@ -610,6 +696,7 @@ def generate(o):
     t += "/-- `_map`: `if group_key not in self._group_keys: self._group_keys[group_key] = […]` is in the row loop -/\n"
     t += "def mapRegisters : Bool := %s\n" % lean_bool(reg)
     t += "/-- `_map`: the value of the yielded triple -/\ndef mapValue : ValExpr := .%s\n" % val
+    t += "/-- `_map`: how the position of a requested column is found (`collect_column_indicies`) -/\ndef collectIndex : ColIndexExpr := .%s\n" % cix
     t += "/-- `_map`: the tests the `yield` sits under -/\ndef mapYieldGuards : List Guard := %s\n" % lean_guards(yg)
     t += "/-- `_map`: what the row loop iterates -/\ndef rowsVia : RowsVia := .%s\n" % via
     t += "/-- `aggregate`: the argument of `self._map(…)` -/\ndef collectColumns : CollectExpr := .%s\n" % col
